@@ -90,14 +90,9 @@ def base_args(case, w):
 
 
 def removed_paths(s0, s1):
-    """paths (direct children of files/ or info/) that the run removed"""
-    out = set()
-    for k in s0:
-        if k not in s1:
-            if putcheck.is_payload_root(k) or \
-                    (putcheck.base(putcheck.parent(k)) == 'info'):
-                out.add(k)
-    return out
+    """top-most paths that the run removed (anything, anywhere)"""
+    gone = set(k for k in s0 if k not in s1)
+    return set(k for k in gone if putcheck.parent(k) not in gone)
 
 
 def run_case(case):
